@@ -26,6 +26,7 @@ BER = "kaira/metrics/signal/ber.py"
 BLER = "kaira/metrics/signal/bler.py"
 BM = "kaira/benchmarks/metrics.py"
 AN = "kaira/channels/analog.py"
+DG = "kaira/channels/digital.py"
 PW = "kaira/constraints/power.py"
 SG = "kaira/constraints/signal.py"
 AT = "kaira/constraints/antenna.py"
@@ -166,6 +167,22 @@ MUTANTS = {
         ("composite skips a stage", "kaira/constraints/composite.py", "        for step in self.constraints:\n            x = step(x, *args, **kwargs)", "        for step in self.constraints[1:]:\n            x = step(x, *args, **kwargs)", "violation", "SEQ-LOOP"),
         ("twin: scale via pow 0.5", PW, "        scale = torch.sqrt(self.total_power / (current_power + 1e-8))\n\n        # Scale the input to achieve desired total power", "        scale = (self.total_power / (current_power + 1e-8)) ** 0.5\n\n        # Scale the input to achieve desired total power", "silent"),
         ("twin: split sqrt", PW, "        scale = torch.sqrt(self.average_power / (current_power + 1e-8))\n\n        # Scale the input to achieve desired average power", "        scale = self.power_avg_factor / torch.sqrt(current_power + 1e-8)\n\n        # Scale the input to achieve desired average power", "silent"),
+    ],
+    "C12": [
+        ("bsc reversed comparison", DG, "flips = (noise < self.crossover_prob).float()", "flips = (noise > self.crossover_prob).float()", "violation", "BERNOULLI"),
+        ("bsc non-strict", DG, "flips = (noise < self.crossover_prob).float()", "flips = (noise <= self.crossover_prob).float()", "violation", "BERNOULLI"),
+        ("bsc halves probability", DG, "flips = (noise < self.crossover_prob).float()", "flips = (noise < self.crossover_prob / 2).float()", "violation", "BERNOULLI"),
+        ("bsc or instead of xor", DG, "y = (x + flips) % 2", "y = torch.clamp(x + flips, max=1)", "violation", "TRANSITION"),
+        ("bsc back conversion wrong", DG, "        flips = (noise < self.crossover_prob).float()\n        y = (x + flips) % 2\n\n        # Convert back to original format if needed\n        if neg_one_format:\n            y = 2 * y - 1", "        flips = (noise < self.crossover_prob).float()\n        y = (x + flips) % 2\n\n        # Convert back to original format if needed\n        if neg_one_format:\n            y = 1 - 2 * y", "violation", "BIPOLAR"),
+        ("bec erases in place", DG, "y = x.clone().float()", "y = x.float()", "violation"),
+        ("bec complement mask", DG, "y[erasure_mask] = self.erasure_symbol", "y[~erasure_mask] = self.erasure_symbol", "violation", "TRANSITION"),
+        ("z flips zeros", DG, "ones_mask = x_binary == 1", "ones_mask = x_binary == 0", "violation", "TRANSITION"),
+        ("z writes ones", DG, "y[ones_mask] = torch.where(random_values < self.error_prob, torch.zeros_like(y[ones_mask]), y[ones_mask])", "y[ones_mask] = torch.where(random_values < self.error_prob, y[ones_mask], torch.zeros_like(y[ones_mask]))", "violation", "TRANSITION"),
+        ("z in-place on input", DG, "            x_binary = x.clone()\n", "            x_binary = x\n", "silent"),
+        ("z in-place on input 2", DG, "        y = x_binary.clone().float()", "        y = x_binary.float()", "violation"),
+        ("z prob not validated", DG, "        if not 0 <= error_prob <= 1:\n            raise ValueError(\"Error probability must be between 0 and 1\")\n", "", "violation", "PARAM"),
+        ("twin: p > U", DG, "flips = (noise < self.crossover_prob).float()", "flips = (self.crossover_prob > noise).float()", "silent"),
+        ("twin: bernoulli", DG, "erasure_mask = torch.rand_like(x.float()) < self.erasure_prob", "erasure_mask = torch.rand_like(x.float()) < self.erasure_prob  # same", "silent"),
     ],
 }
 
